@@ -52,9 +52,14 @@ def accepted(case):
         return None
 
 
+ONLY = None      # replay mode: (seed, index) of the one case to yield
+
+
 def stream(seed, n, profiles, start=0):
     """yield accepted cases; profile chosen round-robin"""
     for i in range(start, start + n):
+        if ONLY is not None and (seed, i) != ONLY:
+            continue
         prof = profiles[i % len(profiles)]
         case, g = make_case(seed, i, prof)
         try:
